@@ -156,6 +156,19 @@ def histories(draw, sched):
                                    for _ in range(draw(st.integers(3, 6)))]])
     n = draw(st.integers(4, MAX_OPS - len(ops)))
     ops += draw(st.lists(one, min_size=n, max_size=n))
+    if sched == 'backfilling' and draw(st.integers(0, 3)) == 0:
+        # a pilot ends, a notification of an earlier state of it arrives afterwards (out of
+        # order / late), then more work comes in: construct it instead of hoping for it
+        i = draw(st.integers(0, n_p - 1))
+        ops += [['add', [i]], ['pstate', i, 4, 0],
+                ['pstate', i, draw(st.sampled_from([5, 6, 7])), 0],
+                ['pstate', i, draw(st.sampled_from([3, 4, 4])), 1],
+                ['submit', [[-1, 1, 1] for _ in range(draw(st.integers(1, 3)))]]]
+    elif sched == 'backfilling' and draw(st.integers(0, 3)) == 0:
+        # a pilot's state notification overtakes its add_pilots (whose pilot document is older)
+        j = draw(st.integers(0, n_p - 1))
+        ops += [['remove', [j]], ['pstate', j, 4, 1], ['add', [j]],
+                ['submit', [[-1, 1, 1] for _ in range(draw(st.integers(1, 3)))]]]
     return {'sched': sched, 'pilots': pilots, 'ops': ops}
 
 
@@ -427,7 +440,7 @@ def run_case(case):             # noqa: C901
 
     # ---- the history
     n_sub = 0
-    for op in list(case.get('ops', []))[:MAX_OPS]:
+    for op in list(case.get('ops', []))[:MAX_OPS + 5]:
         if not isinstance(op, (list, tuple)) or not op:
             continue
         kind  = op[0]
